@@ -40,6 +40,25 @@ cd /verif; git -C /repo worktree remove --force "$W" >/dev/null 2>&1
 echo "$SID-$N confirm: $RES" | tee "$D/confirm.txt"
 # run the checks against it
 unset CARGO_TARGET_DIR
+if [ "${ISOLATED:-0}" = "1" ]; then
+  # isolated mode: a private copy of the harness pointing at a private worktree of /repo (used while a
+  # long run is reading /repo); otherwise the change is applied to /repo itself and undone afterwards
+  E=/tmp/evh
+  if [ ! -d $E/repo ]; then mkdir -p $E; git -C /repo worktree add --detach $E/repo HEAD >/dev/null 2>&1; fi
+  git -C $E/repo checkout -q --detach "$(git -C /repo rev-parse HEAD)" 2>/dev/null; git -C $E/repo checkout -- . ; git -C $E/repo status --porcelain | grep '^??' | awk '{print $2}' | (cd $E/repo && xargs -r rm -rf)
+  rsync -a --delete --exclude target --exclude fuzz/target /verif/harness/ $E/harness/
+  sed -i "s|/repo/|$E/repo/|g" $E/harness/Cargo.toml
+  mkdir -p $E/fixtures; rsync -a /verif/fixtures/ $E/fixtures/; cp /verif/known_findings.txt $E/; rsync -a --delete /verif/regressions/ $E/regressions/
+  git -C $E/repo apply "$D/patch.diff"
+  for id in $IDS; do
+    BIN=vcheck; FEAT=""; [ "$id" = "C15" ] && { BIN=vcheck_tls; FEAT="--features tls"; }
+    (cd $E/harness && cargo build --release --offline $FEAT --bin $BIN >/tmp/evh_build.log 2>&1) || { echo "$SID-$N check $id: harness does not build" | tee -a "$D/confirm.txt"; continue; }
+    out=$(VERIF_ROOT=$E $E/target/release/$BIN run $id quick 2>&1 | grep -E "^(signature|VIOLATION|OK|INCONCLUSIVE|error)" | head -3 | tr '\n' ' ' | sed "s|$E|/verif|g")
+    echo "$SID-$N check $id: $out" | tee -a "$D/confirm.txt"
+  done
+  git -C $E/repo checkout -- .
+  exit 0
+fi
 if git -C /repo diff --quiet && git -C /repo apply --check "$D/patch.diff" 2>/dev/null; then
   git -C /repo apply "$D/patch.diff"
   for id in $IDS; do
